@@ -5,6 +5,15 @@ VERIF = os.path.dirname(os.path.dirname(os.path.abspath(__file__)))
 props = [json.loads(l) for l in open(os.path.join(VERIF, "properties.jsonl"))]
 
 CLAIMED = {
+    "C19": dict(
+        text="Databox.tla models databoxes over a heap of item objects (deep copies allocate, shallow copies share, databox-level overlay/"
+             "underlay/clip/prepend act in place, CSV and dataslate round trips create fresh objects with the same content on the selected "
+             "names/span); the frame conditions of the property are action properties checked by TLC on every step of every generated "
+             "behaviour; simulated behaviours over three handles are replayed through irispie (real CSV files and Dataslates) and after every "
+             "step names, contents, descriptions, frequencies and the object-sharing structure of all handles are compared.",
+        note="Trusted: TLC (simulation mode: behaviours are sampled, not exhaustive). Bounds: 9 initial items (Q/M/I series, 1-2 variants, an empty "
+             "series, a number), depth 9. Renames onto existing names are not generated.",
+        design="5/C19", technique="TLA+ spec (Databox) with action properties checked by TLC on simulated behaviours; behaviours replayed into irispie"),
     "C17": dict(
         text="SeqSim.tla is the simulator as a state machine, one step per (equation, period) in either execution order, with simulate and "
              "exogenize branches and exact transforms; TLC checks after every step that the equation just processed holds with its residual, at the "
